@@ -227,6 +227,9 @@ class LayoutDomain:
         if isinstance(a, RotL) and isinstance(b, RotL):
             if not a.f: return b
             if not b.f: return a
+        # integer scalars (a running row offset: `k = 0 ... k += n`): some integer, still a scalar index
+        def _int(v): return isinstance(v, Sz) or (isinstance(v, Const) and isinstance(v.value, int) and not isinstance(v.value, bool))
+        if _int(a) and _int(b): return Sz(("?int",))
         # a value that is unknown on one path keeps the layout known from the other path (only definite mismatches are reported)
         if isinstance(a, Unknown) and isinstance(b, (Arr, RotL, Sz, DF)): return b
         if isinstance(b, Unknown) and isinstance(a, (Arr, RotL, Sz, DF)): return a
@@ -425,6 +428,12 @@ class LayoutDomain:
             return CumIdx("point")
         if isinstance(recv, Seq) and recv.kind == "py" and isinstance(idx[0], Const) and isinstance(idx[0].value, int) and -len(recv.items) <= idx[0].value < len(recv.items):
             return recv.items[idx[0].value]
+        if isinstance(recv, Seq) and recv.kind == "py" and isinstance(idx[0], tuple) and idx[0] and idx[0][0] == "slice":
+            # `B.shape[1:]`: a literal slice of a python sequence
+            def _b(v): return v.value if isinstance(v, Const) and (v.value is None or isinstance(v.value, int)) else (None if v is None else "?")
+            lo, hi, st = (_b(v) for v in (idx[0] + (None, None, None))[1:4])
+            if "?" not in (lo, hi, st):
+                return Seq(list(recv.items[slice(lo, hi, st)]), "py")
         if isinstance(recv, Const) and isinstance(recv.value, dict) and isinstance(idx[0], Const) and idx[0].value in recv.value:
             return recv.value[idx[0].value]
         if isinstance(recv, Const) and isinstance(recv.value, dict) and not isinstance(idx[0], (Const, tuple)) and "*" in recv.value:
